@@ -10,6 +10,7 @@ import (
 	"fmt"
 	"time"
 
+	"github.com/failsafe-go/failsafe-go"
 	"github.com/failsafe-go/failsafe-go/timeout"
 
 	"github.com/failsafe-go/failsafe-go/verifrt/vcontext"
@@ -52,6 +53,13 @@ func c14Scenarios(tier string) []*Scenario {
 			}
 			if fired := env.quietCount(0, "timeout"); fired != exceeded {
 				return fmt.Sprintf("OnTimeoutExceeded fired %d times, %d executions returned ErrExceeded", fired, exceeded)
+			}
+		}
+		// an async execution under a retry or hedge policy that was cancelled through its ExecutionResult
+		// while it still had work to do reports that cancellation, not the context error it causes
+		for _, x := range env.Exes {
+			if x.AsyncCancel && x.CancelTick1 > 0 && !x.DoneBeforeCancel && errors.Is(x.ResE, context.Canceled) && !errors.Is(x.ResE, failsafe.ErrExecutionCanceled) {
+				return fmt.Sprintf("execution %d was cancelled through ExecutionResult.Cancel and returned %v instead of ErrExecutionCanceled", x.ID, x.ResE)
 			}
 		}
 		// a bulkhead has all its permits back once everything has finished
@@ -167,7 +175,25 @@ func c14Scenarios(tier string) []*Scenario {
 	}
 	// async runner + Cancel + readers
 	add("async-cancel", []Spec{{Kind: KRetry, MaxRetries: 2, Delay: 5}}, []ExeSpec{{Script: []Out{{Err: E1, Dur: 5, Coop: true}}, Async: true, CancelAsync: true, CancelAt: 10}})
+	add("async-cancel-nodelay", []Spec{{Kind: KRetry, MaxRetries: 3}}, []ExeSpec{{Script: []Out{{Err: E1, Dur: 5, Coop: true}}, Async: true, CancelAsync: true, CancelAt: 5}})
+	add("async-cancel-timeout", []Spec{{Kind: KRetry, MaxRetries: 2, Delay: 5}, {Kind: KTimeout, Limit: 50}}, []ExeSpec{{Script: []Out{{Err: E1, Dur: 5, Coop: true}}, Async: true, CancelAsync: true, CancelAt: 10}})
 	add("async-cancel-hedge", []Spec{{Kind: KHedge, MaxHedges: 1, HDelay: 5}}, []ExeSpec{{Script: []Out{{Err: E1, Block: true}}, Async: true, CancelAsync: true, CancelAt: 7}})
+	// a time-windowed breaker: two threads read its metrics at the instant a window slice expires
+	{
+		tb := Spec{Kind: KBreaker, FT: 3, FC: 3, FPeriod: 100, BDelay: 20}
+		reader := func(at int64) func(env *Env) {
+			return func(env *Env) {
+				vrt.Sleep(at)
+				cb := env.Breakers[0]
+				m := cb.Metrics()
+				_, _, _, _, _ = m.Failures(), m.Executions(), m.Successes(), m.FailureRate(), m.SuccessRate()
+				_, _ = cb.State(), cb.RemainingDelay()
+			}
+		}
+		for _, at := range []int64{25, 110, 125} {
+			add("timed-breaker-readers", []Spec{tb}, []ExeSpec{{Script: slowFail}, {Script: slowOK, StartAt: 12}}, reader(at), reader(at))
+		}
+	}
 	// a waiter on a full bulkhead whose context is cancelled at the very instant the holder releases
 	for _, w := range []time.Duration{15, 40} {
 		add("bulkhead-cancel-waiter", []Spec{{Kind: KBulkhead, Conc: 1, BWait: w}}, []ExeSpec{{Script: slowOK}, {Script: slowOK, StartAt: 1, Ctx: "cancel", CancelAt: 10}, {Script: slowOK, StartAt: 2, Async: true}})
@@ -183,7 +209,7 @@ func init() {
 		Race:      true,
 		Technique: "stateless schedule exploration of the instrumented library in a race-detector build whose baton hand-offs are invisible to the detector: every explored schedule is judged by happens-before, not by the failure manifesting",
 		Rule: "harness family: every policy alone and every ordered pair of the eight policies (72 stacks) with a sync and an async execution plus a standalone API caller on the shared instances; hedge over each policy and timeout firing during each policy (the library's own goroutines); " +
-			"async runner + Cancel; every schedule within deviation bound 1 (thorough 2); a schedule fails on a race report, panic, deadlock, an execution that does not complete, an outermost timeout whose OnTimeoutExceeded count differs from the executions that returned ErrExceeded, a bulkhead that does not have all its permits back at the end, or a shared bursty limiter letting more invocations and standalone permits through than its rate; distinct = distinct observation logs",
+			"async runner + Cancel; every schedule within deviation bound 1 (thorough 2); a schedule fails on a race report, panic, deadlock, an execution that does not complete, an outermost timeout whose OnTimeoutExceeded count differs from the executions that returned ErrExceeded, a bulkhead that does not have all its permits back at the end, an async execution under retry/hedge cancelled through its ExecutionResult that reports the bare context error, or a shared bursty limiter letting more invocations and standalone permits through than its rate; distinct = distinct observation logs",
 		Assume: []string{"the race detector reports each pair of access sites once per process, so a race is attributed to the first schedule that exposes it", "the harness shares no memory between its threads except through //go:norace helpers",
 			"sequentially consistent interleavings; weak-memory reorderings of racy code are not explored"},
 		Budget: map[string]time.Duration{"quick": 150 * time.Second, "thorough": 25 * time.Minute},
